@@ -40,11 +40,11 @@ func (c *Ctx) mutatesRecv() map[*ssa.Function]string {
 				if st, ok := i.(*ssa.Store); ok && sum[fn] == "" {
 					root := Root(st.Addr)
 					if root == ssa.Value(fn.Params[0]) {
-						sum[fn] = "stores to " + Desc(st.Addr) + " (" + fn.Name() + ")"
+						sum[fn] = "stores to " + Desc(st.Addr) + " (" + FNm(fn) + ")"
 					}
 					// closure capturing the receiver by reference
 					if fv, ok := root.(*ssa.FreeVar); ok && f != fn && fv.Name() == PN(fn.Params[0]) {
-						sum[fn] = "stores to " + Desc(st.Addr) + " (closure of " + fn.Name() + ")"
+						sum[fn] = "stores to " + Desc(st.Addr) + " (closure of " + FNm(fn) + ")"
 					}
 				}
 			})
@@ -68,7 +68,7 @@ func (c *Ctx) mutatesRecv() map[*ssa.Function]string {
 					}
 					r := Root(args[0])
 					if r == ssa.Value(fn.Params[0]) || (func() bool { fv, ok := r.(*ssa.FreeVar); return ok && fv.Name() == PN(fn.Params[0]) })() {
-						sum[fn] = "calls " + callee.Name() + ", which " + sum[callee]
+						sum[fn] = "calls " + FNm(callee) + ", which " + sum[callee]
 						changed = true
 					}
 				}
@@ -95,7 +95,7 @@ func checkC07(c *Ctx) {
 	mut := c.mutatesRecv()
 	exemptMut := map[string]string{}
 	if w := lazyOnceWrapper(c); w != nil {
-		exemptMut[w.String()] = "publishes the derived core once under sync.Once (decided by R7.6 / C09 R9.2)"
+		exemptMut[FStr(w)] = "publishes the derived core once under sync.Once (decided by R7.6 / C09 R9.2)"
 	}
 	var list []deriveM
 	for _, n := range []string{"With", "WithLazy", "Named", "WithOptions", "Sugar"} {
@@ -146,7 +146,7 @@ func checkC07(c *Ctx) {
 }
 
 func c7Pure(c *Ctx, fn *ssa.Function, mut map[*ssa.Function]string, exempt map[string]string) {
-	name := fn.String()
+	name := FStr(fn)
 	if len(fn.Params) == 0 {
 		return
 	}
@@ -196,14 +196,14 @@ func c7Clone(c *Ctx) {
 		ok := true
 		fromPool := func(obj ssa.Value) bool {
 			call, isCall := obj.(*ssa.Call)
-			return isCall && CalleeFunc(call) != nil && CalleeFunc(call).Name() == "Get"
+			return isCall && CalleeFunc(call) != nil && FNm(CalleeFunc(call)) == "Get"
 		}
 		other, trunc, nObj := DerivedObjectsFrom(cl, je, fromPool, func(o derivedObj) {
 			got = o.Fields
 			ok = ok && isFreshBufferDesc(got["buf"]) && got["EncoderConfig"] == "enc.EncoderConfig" && got["spaced"] == "enc.spaced" && got["openNamespaces"] == "enc.openNamespaces"
 		})
 		ok = ok && !trunc && nObj > 0 && len(other) == 0
-		c.Check(ok, "R7.3", cl.String(), "clone-fields", cl.Pos(), "the clone shares only the immutable config and copies spaced/openNamespaces; its buffer is fresh from the pool (%v)", got)
+		c.Check(ok, "R7.3", FStr(cl), "clone-fields", cl.Pos(), "the clone shares only the immutable config and copies spaced/openNamespaces; its buffer is fresh from the pool (%v)", got)
 		// Clone copies bytes: on every path (helpers inline) the parent's bytes are written into the clone's buffer,
 		// unless a branch established that there are none
 		rn := PN(cln.Params[0])
@@ -245,7 +245,7 @@ func c7Clone(c *Ctx) {
 			}
 		}
 		okCopy = okCopy && nCopy > 0
-		c.Check(okCopy, "R7.3", cln.String(), "copies-context-bytes", cln.Pos(), "Clone writes the parent's accumulated context bytes into the clone's own buffer")
+		c.Check(okCopy, "R7.3", FStr(cln), "copies-context-bytes", cln.Pos(), "Clone writes the parent's accumulated context bytes into the clone's own buffer")
 	}
 	iw := c.Method(CorePath, "ioCore", "With")
 	ioc := c.Named(CorePath, "ioCore")
@@ -274,7 +274,7 @@ func c7Clone(c *Ctx) {
 		}
 		isCloneOfRecvEnc := func(st *ConcState, v ssa.Value) bool {
 			cl, ok := resolve(st, v).(*ssa.Call)
-			return ok && cl.Call.IsInvoke() && cl.Call.Method.Name() == "Clone" && st.Desc(cl.Call.Value) == rc+".enc"
+			return ok && cl.Call.IsInvoke() && FNm(cl.Call.Method) == "Clone" && st.Desc(cl.Call.Value) == rc+".enc"
 		}
 		var got []string
 		var bad []string
@@ -327,7 +327,7 @@ func c7Clone(c *Ctx) {
 				bad = append(bad, sq)
 			}
 		}
-		c.Check(!trunc && len(seqs) > 0 && len(bad) == 0, "R7.3", iw.String(), "clone-fields", iw.Pos(), "on every path the derived core is a fresh ioCore with a clone of the receiver's encoder and the same sink and enabler, and the new fields go into that clone before it is returned (%v; offending: %v)", got, bad)
+		c.Check(!trunc && len(seqs) > 0 && len(bad) == 0, "R7.3", FStr(iw), "clone-fields", iw.Pos(), "on every path the derived core is a fresh ioCore with a clone of the receiver's encoder and the same sink and enabler, and the new fields go into that clone before it is returned (%v; offending: %v)", got, bad)
 	}
 }
 
@@ -374,7 +374,7 @@ func c7Wrappers(c *Ctx) {
 				}
 			}
 		})
-		c.Check(!trunc && nObj > 0 && len(other) == 0 && len(missing) == 0 && len(wrong) == 0, "R7.4", fn.String(), "rewrap-complete", fn.Pos(), "on every path With returns a new %s with %s = wrapped.With(fields) and every other field copied from the receiver (left at zero: %v; not a plain copy: %v; returned instead: %v) — a forgotten field silently resets e.g. the sampler's shared counters or hook", w.name, w.coreField, missing, wrong, other)
+		c.Check(!trunc && nObj > 0 && len(other) == 0 && len(missing) == 0 && len(wrong) == 0, "R7.4", FStr(fn), "rewrap-complete", fn.Pos(), "on every path With returns a new %s with %s = wrapped.With(fields) and every other field copied from the receiver (left at zero: %v; not a plain copy: %v; returned instead: %v) — a forgotten field silently resets e.g. the sampler's shared counters or hook", w.name, w.coreField, missing, wrong, other)
 		okRet := false
 		for _, r := range Returns(fn) {
 			rv := RetVals(r)[0]
@@ -385,7 +385,7 @@ func c7Wrappers(c *Ctx) {
 				okRet = false
 			}
 		}
-		c.Check(okRet, "R7.4", fn.String(), "returns-own-type", fn.Pos(), "the derived core is again a %s", w.name)
+		c.Check(okRet, "R7.4", FStr(fn), "returns-own-type", fn.Pos(), "the derived core is again a %s", w.name)
 	}
 	// tee
 	c7TeeWith(c, "R7.4")
@@ -402,7 +402,7 @@ func c7Wrappers(c *Ctx) {
 			ok = ok && got["LevelEnabler"] == "co.LevelEnabler" && got["logs"] == "co.logs" && ctxOK
 		})
 		ok = ok && !trunc && nObj > 0 && len(other) == 0
-		c.Check(ok, "R7.4", cw.String(), "rewrap-complete", cw.Pos(), "the derived observer shares enabler and log store and owns context = capped-append(parent context, fields) (%v)", got)
+		c.Check(ok, "R7.4", FStr(cw), "rewrap-complete", cw.Pos(), "the derived observer shares enabler and log store and owns context = capped-append(parent context, fields) (%v)", got)
 	}
 }
 
@@ -416,7 +416,7 @@ func c7Names(c *Ctx) {
 				okEmpty = Strip(RetVals(r)[0]) == ssa.Value(fn.Params[0])
 			}
 		}
-		c.Check(okEmpty, "R7.5", fn.String(), "empty-segment", fn.Pos(), "an empty name segment returns the receiver unchanged")
+		c.Check(okEmpty, "R7.5", FStr(fn), "empty-segment", fn.Pos(), "an empty name segment returns the receiver unchanged")
 		// the clone's name: s for an unnamed parent, parent.name + "." + s otherwise (any spelling of the join)
 		okFirst, okJoin := false, false
 		rcv, seg := PN(fn.Params[0]), PN(fn.Params[1])
@@ -436,12 +436,12 @@ func c7Names(c *Ctx) {
 				}
 			}
 		}
-		c.Check(okFirst && okJoin, "R7.5", fn.String(), "dot-join", fn.Pos(), "the clone's name is s for an unnamed parent and parent.name + \".\" + s otherwise")
+		c.Check(okFirst && okJoin, "R7.5", FStr(fn), "dot-join", fn.Pos(), "the clone's name is s for an unnamed parent and parent.name + \".\" + s otherwise")
 	}
 	chk := c.Method(ZapPath, "Logger", "check")
 	if c.Anchor("R7.5", "zap.Logger.check", chk != nil) {
 		ef, efOK := entryAtCoreCheck(c)
-		c.Check(efOK && ef["LoggerName"] == PN(chk.Params[0])+".name", "R7.5", chk.String(), "name-into-entry", chk.Pos(), "every entry handed to Core.Check carries the logger's own name (%v)", ef)
+		c.Check(efOK && ef["LoggerName"] == PN(chk.Params[0])+".name", "R7.5", FStr(chk), "name-into-entry", chk.Pos(), "every entry handed to Core.Check carries the logger's own name (%v)", ef)
 	}
 	sn := c.Method(ZapPath, "SugaredLogger", "Named")
 	if c.Anchor("R7.5", "zap.SugaredLogger.Named", sn != nil) {
@@ -449,7 +449,7 @@ func c7Names(c *Ctx) {
 		for _, st := range FieldStoresOf(sn, c.Named(ZapPath, "SugaredLogger")) {
 			ok = st.Field == "base" && len(sn.Params) == 2 && Desc(st.Instr.Val) == "Named("+PN(sn.Params[0])+".base, "+PN(sn.Params[1])+")"
 		}
-		c.Check(ok, "R7.5", sn.String(), "delegates", sn.Pos(), "the sugared Named wraps base.Named(name)")
+		c.Check(ok, "R7.5", FStr(sn), "delegates", sn.Pos(), "the sugared Named wraps base.Named(name)")
 	}
 }
 
@@ -486,7 +486,7 @@ func c7Lazy(c *Ctx) {
 			for _, g := range WithClosures(fn) {
 				for _, cl := range Calls(g) {
 					cc := cl.Common()
-					if cc.IsInvoke() && cc.Method.Name() == "With" && len(cc.Args) == 1 {
+					if cc.IsInvoke() && FNm(cc.Method) == "With" && len(cc.Args) == 1 {
 						if _, isF := fieldOfNamed(cc.Value, lz); isF {
 							if _, isF2 := fieldOfNamed(cc.Args[0], lz); isF2 {
 								at = cl
@@ -534,7 +534,7 @@ func c7Lazy(c *Ctx) {
 					if IsCallTo(x, "(*sync.Once).Do") {
 						return "once"
 					}
-					if x.Call.IsInvoke() && x.Call.Method.Name() == m {
+					if x.Call.IsInvoke() && FNm(x.Call.Method) == m {
 						d := st.Desc(x.Call.Value)
 						if i := strings.LastIndex(d, "."); i >= 0 && d[i+1:] == pubField {
 							return "deleg-derived"
@@ -553,7 +553,7 @@ func c7Lazy(c *Ctx) {
 				bad = append(bad, sq)
 			}
 		}
-		c.Check(!trunc && len(seqs) > 0 && len(bad) == 0 && pubField != "", "R7.6", fn.String(), "init-before-delegation", fn.Pos(), "%s forces the one-time evaluation on every path and then delegates, once, to the derived core it published (a bypass gives parent and child different views of a mutable field); offending paths: %v", m, bad)
+		c.Check(!trunc && len(seqs) > 0 && len(bad) == 0 && pubField != "", "R7.6", FStr(fn), "init-before-delegation", fn.Pos(), "%s forces the one-time evaluation on every path and then delegates, once, to the derived core it published (a bypass gives parent and child different views of a mutable field); offending paths: %v", m, bad)
 	}
 	// closure stores originalCore.With(fields) into core, exactly once
 	n := 0
@@ -581,7 +581,7 @@ func c7Lazy(c *Ctx) {
 			okVal = st.Field == "core" && (dv == "With(d.originalCore, d.fields)" || dv == "With("+rn+".originalCore, "+rn+".fields)")
 		}
 	}
-	c.Check(n == 1 && okVal, "R7.6", init.String(), "evaluates-once", init.Pos(), "the Once closure performs exactly one store: core = originalCore.With(fields)")
+	c.Check(n == 1 && okVal, "R7.6", FStr(init), "evaluates-once", init.Pos(), "the Once closure performs exactly one store: core = originalCore.With(fields)")
 	_ = token.NoPos
 }
 
@@ -665,7 +665,7 @@ func joinParts(fn *ssa.Function, seg string) bool {
 // c7Appends: appends onto slices owned by the receiver / an argument object (also through a local struct copy of it)
 // are capacity-capped, so derived objects never share a backing-array tail with their parent and siblings.
 func c7Appends(c *Ctx, rule string, fn *ssa.Function) {
-	name := fn.String()
+	name := FStr(fn)
 	if len(fn.Params) == 0 {
 		return
 	}
@@ -851,7 +851,7 @@ func c7Eager(c *Ctx) {
 				}
 			}
 		}
-		c.Check(eager && !lazy, "R7.10", fn.String(), "eager", fn.Pos(), "the fields are handed to core.With at derivation time (eager=%v, through NewLazyWith=%v): a later change of a mutable field value must not show up", eager, lazy)
+		c.Check(eager && !lazy, "R7.10", FStr(fn), "eager", fn.Pos(), "the fields are handed to core.With at derivation time (eager=%v, through NewLazyWith=%v): a later change of a mutable field value must not show up", eager, lazy)
 	}
 	c7CloneCarries(c, "R7.10")
 }
@@ -999,7 +999,7 @@ func c7CloneCarries(c *Ctx, rule string) {
 			},
 		})
 		if trunc || len(seqs) == 0 {
-			c.Und(rule, fn.String(), "clone-carries-context", fn.Pos(), "path exploration incomplete (%d sequences)", len(seqs))
+			c.Und(rule, FStr(fn), "clone-carries-context", fn.Pos(), "path exploration incomplete (%d sequences)", len(seqs))
 			continue
 		}
 		var bad []string
@@ -1008,7 +1008,7 @@ func c7CloneCarries(c *Ctx, rule string) {
 				bad = append(bad, sq)
 			}
 		}
-		c.Check(len(bad) == 0, rule, fn.String(), "clone-carries-context", fn.Pos(), "on every path the clone receives the accumulated context bytes, the receiver's configuration and spacing and its count of open namespaces (explored with one namespace open): %v", bad)
+		c.Check(len(bad) == 0, rule, FStr(fn), "clone-carries-context", fn.Pos(), "on every path the clone receives the accumulated context bytes, the receiver's configuration and spacing and its count of open namespaces (explored with one namespace open): %v", bad)
 	}
 }
 
@@ -1098,7 +1098,7 @@ func c7AppendsAll(c *Ctx, rule string) {
 			if sc := call.Call.StaticCallee(); sc != nil {
 				for ai, a := range call.Call.Args {
 					if appendsOnto[key{sc, ai}] {
-						out = append(out, site{a, sc.Name() + " (which appends onto this argument)", call})
+						out = append(out, site{a, FNm(sc) + " (which appends onto this argument)", call})
 					}
 				}
 			}
@@ -1228,7 +1228,7 @@ func c7TeeWith(c *Ctx, rule string) {
 	}
 	describe := func(st *ConcState, v ssa.Value) string {
 		r := resolve(st, v)
-		if cl, ok := r.(*ssa.Call); ok && cl.Call.IsInvoke() && cl.Call.Method.Name() == "With" {
+		if cl, ok := r.(*ssa.Call); ok && cl.Call.IsInvoke() && FNm(cl.Call.Method) == "With" {
 			if i, ok := branchIndex(st, cl.Call.Value); ok && len(cl.Call.Args) == 1 && resolve(st, cl.Call.Args[0]) == ssa.Value(fields) {
 				return "with(" + itoa(int(i)) + ")"
 			}
@@ -1288,7 +1288,7 @@ func c7TeeWith(c *Ctx, rule string) {
 		},
 	})
 	if trunc || len(seqs) == 0 {
-		c.Und(rule, mw.String(), "every-branch-derived", mw.Pos(), "path exploration incomplete (%d sequences)", len(seqs))
+		c.Und(rule, FStr(mw), "every-branch-derived", mw.Pos(), "path exploration incomplete (%d sequences)", len(seqs))
 		return
 	}
 	var bad []string
@@ -1324,5 +1324,5 @@ func c7TeeWith(c *Ctx, rule string) {
 	if len(bad) > 2 {
 		bad = append(bad[:2:2], "… "+itoa(len(bad)-2)+" more")
 	}
-	c.Check(len(bad) == 0, rule, mw.String(), "every-branch-derived", mw.Pos(), "over %d paths on a two-branch tee: the result is a new slice holding branch[0].With(fields), branch[1].With(fields) - on every path, whatever the branches currently enable: %v", len(seqs), bad)
+	c.Check(len(bad) == 0, rule, FStr(mw), "every-branch-derived", mw.Pos(), "over %d paths on a two-branch tee: the result is a new slice holding branch[0].With(fields), branch[1].With(fields) - on every path, whatever the branches currently enable: %v", len(seqs), bad)
 }
